@@ -12,6 +12,8 @@ import (
 	_ "verifharness/comp/keyed"
 	_ "verifharness/comp/lifo"
 	_ "verifharness/comp/linkedlist"
+	_ "verifharness/comp/once"
+	_ "verifharness/comp/promise"
 	_ "verifharness/comp/refcount"
 	_ "verifharness/comp/routine"
 	_ "verifharness/comp/seq"
